@@ -27,6 +27,8 @@ AUDIT_CLAIMS = {
     # the hex digit encoder is upper-case; the decoder accepts exactly the hex digits
     "T13": "C01 C03 C04 C05", "T14": "C01 C02 C04 C05 C06",
     "LA": "C01 C03 C05 C06 C19",
+    # the byte writer itself keeps the contract the emission audits assume (unit stored, changed flag accumulated on every path)
+    "EM-CQ-WRITER": "C01 C05",
 }
 
 
@@ -42,6 +44,7 @@ def quoter_audits(ctx, backends=("py", "pyx"), ch2=True):
         pq = PyQuoter(ctx, model)
         pq.audit()
         out["py"] = {n: pq.policy(c) for n, (cls, c) in cfgs.items() if cls == "_Quoter"}
+        pq.fast_paths(cfgs, out["py"])
     if "pyx" in backends:
         cq = CQuoter(ctx, model)
         cq.audit(ch2=ch2)
